@@ -1801,6 +1801,8 @@ class Interp:
             if full is None or not all(d.bits[i] == (full[shift + i] if shift + i < 64 else 0) for i in range(d.w)):
                 name = None
         taken = []
+        varbits = [(i, b) for i, b in enumerate(d.bits) if b not in (0, 1)]
+        single = varbits[0] if len(varbits) == 1 and isinstance(varbits[0][1], tuple) and varbits[0][1][0] == 'v' else None
         for val, tgt in targets:
             if any(b in (0, 1) and b != (val >> i) & 1 for i, b in enumerate(d.bits)):
                 continue
@@ -1829,6 +1831,9 @@ class Interp:
             s2.notes.append(('%s' % fmt_bits(d.bits), val, t['loc']))
             if any(b == TOP or (isinstance(b, tuple) and b[0] != 'v') for b in d.bits):
                 s2.facts[('sw', d.key())] = val
+            if single is not None:
+                # a value with one unknown bit (`x & FLAG`): the switch is a test of that bit
+                s2.events.append(('branch', single[1], (val >> single[0]) & 1, t['loc'], fr.f['name']))
             outs += self.exec_block(fr, tgt, s2, visiting)
         # otherwise arm
         s2 = st
@@ -1853,6 +1858,16 @@ class Interp:
             self.narrow(s2, BV.sym(64, name), None, None)
         elif len(taken) >= (1 << width) and width > 0:
             return outs
+        if single is not None and not s2.dead:
+            # the one unknown bit takes the value no listed target has
+            base = sum(b << i for i, b in enumerate(d.bits) if b in (0, 1))
+            left = [v for v in (0, 1) if (base | (v << single[0])) not in taken]
+            if not left:
+                return outs
+            if len(left) == 1:
+                if not self.assume(s2, single[1], left[0]) or s2.dead:
+                    return outs
+                s2.events.append(('branch', single[1], left[0], t['loc'], fr.f['name']))
         if not s2.dead:
             s2.notes.append(('%s' % fmt_bits(d.bits), 'otherwise:' + ','.join('%#x' % v for v in taken[:8]), t['loc']))
             s2.facts[('swnot', d.key())] = tuple(taken)
